@@ -242,7 +242,7 @@ func (fc *FnCtx) binop(op token.Token, a, b Val, st *State, pos token.Pos) Val {
 		switch op {
 		case token.ADD:
 			fc.declareOnce("str.cat", "(declare-fun str.cat (Str Str) Str)")
-			fc.declareOnce("str.cat.ax", fmt.Sprintf("(assert (forall ((a Str) (b Str)) (! (= (str.len (str.cat a b)) (%s (str.len a) (str.len b))) :pattern ((str.cat a b)))))", map[bool]string{true: "bvadd", false: "+"}[fc.bv]))
+			fc.declareAxiomOnce("str.cat.ax", "str.cat", fmt.Sprintf("(assert (forall ((a Str) (b Str)) (! (= (str.len (str.cat a b)) (%s (str.len a) (str.len b))) :pattern ((str.cat a b)))))", map[bool]string{true: "bvadd", false: "+"}[fc.bv]))
 			return Val{T: app("str.cat", a.T, b.T), Ty: ty}
 		case token.LSS, token.LEQ, token.GTR, token.GEQ:
 			fc.declareOnce("str.lt", "(declare-fun str.lt (Str Str) Bool)")
@@ -296,6 +296,11 @@ func (fc *FnCtx) binop(op token.Token, a, b Val, st *State, pos token.Pos) Val {
 		}
 		if (op == token.QUO || op == token.REM) && st != nil {
 			fc.assert(st, not(app("=", b.T, bvLit(big.NewInt(0), intWidth(ty)))), "div0", "divisor is non-zero", pos)
+		}
+		if op == token.QUO && !uns && b.K != nil && intWidth(ty) == 64 && fc.cs != nil {
+			if k := constBig(b.K); k != nil && k.Sign() > 0 && fc.cs.OpaqueDiv[k.String()] {
+				return Val{T: app(fc.opaqueDivFn(k), a.T), Ty: ty}
+			}
 		}
 		return Val{T: app(f, a.T, b.T), Ty: ty}
 	}
@@ -529,8 +534,8 @@ func (fc *FnCtx) box(v Val, iface types.Type) Val {
 		fc.declared[bx] = true
 		fc.addPre(fmt.Sprintf("(declare-fun %s (%s) Iface)", bx, s))
 		fc.addPre(fmt.Sprintf("(declare-fun %s (Iface) %s)", ux, s))
-		fc.addPre(fmt.Sprintf("(assert (forall ((x %s)) (! (and (= (%s (%s x)) x) (= (iface.tag (%s x)) %d)) :pattern ((%s x)))))", s, ux, bx, bx, tag, bx))
-		fc.addPre(fmt.Sprintf("(assert (forall ((i Iface)) (! (=> (= (iface.tag i) %d) (= (%s (%s i)) i)) :pattern ((%s i)))))", tag, bx, ux, ux))
+		fc.addAxiom(bx, fmt.Sprintf("(assert (forall ((x %s)) (! (and (= (%s (%s x)) x) (= (iface.tag (%s x)) %d)) :pattern ((%s x)))))", s, ux, bx, bx, tag, bx))
+		fc.addAxiom(ux, fmt.Sprintf("(assert (forall ((i Iface)) (! (=> (= (iface.tag i) %d) (= (%s (%s i)) i)) :pattern ((%s i)))))", tag, bx, ux, ux))
 	}
 	return Val{T: app(bx, v.T), Ty: iface}
 }
@@ -548,4 +553,20 @@ func (fc *FnCtx) typeTag(t types.Type) int {
 	id := len(fc.typeTags) + 1
 	fc.typeTags[n] = id
 	return id
+}
+
+// opaqueDivFn: signed 64-bit division by a positive constant as an uninterpreted function with the
+// axioms the proofs need (monotone; sandwiched for non-negative arguments). Bit-blasting a 64-bit
+// divider defeats all three solvers (120 s, no answer); the axioms are facts of truncating division
+// and are listed as a trusted arithmetic lemma in the evidence.
+func (fc *FnCtx) opaqueDivFn(k *big.Int) string {
+	fn := sym("sdiv$" + k.String())
+	if !fc.declared[fn] {
+		fc.declared[fn] = true
+		fc.externsUsed["arithmetic lemma (trusted): signed 64-bit division by "+k.String()+" is monotone, and 0 <= x/"+k.String()+" <= x for x >= 0; (x/k)*k <= x for x >= 0"] = true
+		fc.addPre(fmt.Sprintf("(declare-fun %s ((_ BitVec 64)) (_ BitVec 64))", fn))
+		fc.addAxiom(fn, fmt.Sprintf("(assert (forall ((a (_ BitVec 64)) (b (_ BitVec 64))) (! (=> (bvsle a b) (bvsle (%s a) (%s b))) :pattern ((%s a) (%s b)))))", fn, fn, fn, fn))
+		fc.addAxiom(fn, fmt.Sprintf("(assert (forall ((a (_ BitVec 64))) (! (=> (bvsle (_ bv0 64) a) (and (bvsle (_ bv0 64) (%s a)) (bvsle (%s a) a))) :pattern ((%s a)))))", fn, fn, fn))
+	}
+	return fn
 }
